@@ -2,6 +2,7 @@ package main
 
 import (
 	"bytes"
+	"strings"
 	"encoding/json"
 	"fmt"
 	"os"
@@ -16,6 +17,7 @@ var detProps = map[string][]string{
 	"merge-sim": {"C25"},
 	"query-sim": {"C11", "C30", "C31"},
 	"capture-sim": {"C21", "C22", "C29"},
+	"dist-sim": {"C15", "C31"},
 }
 
 // selftest runs (1) the differential test of simfs against the real kernel and (2) the
@@ -53,10 +55,14 @@ func selftest(verifDir, tier string, seed int64) int {
 		if len(props) == 0 {
 			continue
 		}
-		bin, _ := build(verifDir, scratch, eng, nil, nil, "")
+		bin, _ := build(verifDir, scratch, eng, nil, nil, "-"+eng.Name)
 		for _, id := range props {
 			var ref map[int]uint64
-			for _, gmp := range []string{"1", "4", "16"} {
+			gmps := []string{"1", "4", "16"}
+			if eng.SingleP {
+				gmps = []string{"1", "1", "1"} // single-P engines: three executions in separate processes
+			}
+			for _, gmp := range gmps {
 				os.Setenv("VERIF_GOMAXPROCS", gmp)
 				n := seeds
 				if id == "C25" && tier != "thorough" {
@@ -85,7 +91,7 @@ func selftest(verifDir, tier string, seed int64) int {
 					}
 				}
 			}
-			fmt.Printf("selftest: determinism %s/%s: %d seeds x GOMAXPROCS{1,4,16} in separate processes, 0 divergences\n", eng.Name, id, len(ref))
+			fmt.Printf("selftest: determinism %s/%s: %d seeds x GOMAXPROCS{%s} in separate processes, 0 divergences\n", eng.Name, id, len(ref), strings.Join(gmps, ","))
 			summary[id] = map[string]any{"seeds": len(ref), "divergences": 0}
 		}
 	}
